@@ -260,6 +260,7 @@ export const $S = {
       throw new Unmodelled(`${o.name || 'builtin'}.${m} on symbolic argument`);
     }
     if (o === null || o === undefined) return o[m](...args);   // throws the native TypeError
+    if (o instanceof SymAscii && m === 'charCodeAt' && Number.isInteger(args[0])) return args[0] >= 0 && args[0] < o.length ? o.chars[args[0]] : NaN;
     if (isSymPrim(o)) throw new Unmodelled(`method ${String(m)} on ${desc(o)}`);
     return o[m](...args);
   },
